@@ -1,5 +1,6 @@
 """C05 — patch never reports success on wrong bytes (DESIGN §7 C05)."""
-from rules.common import *  # noqa: F401,F403
+from rules.common import *
+from flow import strip_refs  # noqa: F401,F403
 from rules import panics
 
 LEVEL = 'other'
@@ -69,6 +70,10 @@ def check_engine(ctx, F, b, fn, tag):
     delta_roots = set()
     for vb, vt in validates:
         delta_roots |= roots(fl.origins(vt['args'][0]))
+    # ---- R2 / R3 when the hashing is delegated to a helper object (`tally.absorb(&buf)` ... `tally.finish(delta)`)
+    if not updates and tally_model(ctx, F, b, fl, fn, tag, writes, delta_roots):
+        _r4(ctx, F, b, fl, fn, tag, writes)
+        return
     # ---- R2
     hashers = set()
     for ub, ut in updates:
@@ -159,6 +164,10 @@ def check_engine(ctx, F, b, fn, tag):
                     '%s returns the result of %s directly: success is not gated by the checksum comparison' % (fn, callee(data)), term_loc(b, rb))
         if kind == 'assign' and data['k'] != 'agg':
             ctx.bad('C05.R3', '%s:return-opaque' % tag, '%s assigns its result from a non-constructor expression' % fn, loc(b, b.lo))
+    _r4(ctx, F, b, fl, fn, tag, writes)
+
+
+def _r4(ctx, F, b, fl, fn, tag, writes):
     # ---- R4
     reads = fl.calls(lambda c: c in ('std::io::Read::read_exact', 'tokio::io::AsyncReadExt::read_exact'))
     seeks = fl.calls(lambda c: c in ('std::io::Seek::seek', 'tokio::io::AsyncSeekExt::seek'))
@@ -184,6 +193,129 @@ def check_engine(ctx, F, b, fn, tag):
                   'copy arm of %s: %s' % (fn, '; '.join(m for m, c in [
                       ('buffer is not sized by the op length', sized), ('write not guarded by read_exact Ok on the same buffer', rd_ok),
                       ('write not guarded by seek(SeekFrom::Start(op.offset)) Ok', sk_ok)] if not c)), term_loc(b, wb))
+
+
+def tally_model(ctx, F, b, fl, fn, tag, writes, delta_roots):
+    """The engine hands every written buffer to a method of one helper object and returns what that object's closing method
+    says.  Same obligations, read across the three helper bodies:
+      R2  each write_all(buf) is paired with feeder(obj, buf) of the same buffer; the feeder passes its buffer to Hasher::update
+          of the object's hasher on every path on which verification is on;
+      R3  every Ok return of the closing method is behind `verification off` (the field the constructor fills from
+          verify_checksum) or behind finalize(that hasher) == delta.checksum.
+    -> True when this shape was recognised (and judged), False to fall back to the in-body rules."""
+    cfg = fl.cfg
+    # the closing call: the engine returns its result
+    closers = []
+    for (rb, kind, data) in ret_defs(b):
+        if kind == 'call' and F.body(callee(data)) is not None and callee(data) != 'std::ops::FromResidual::from_residual':
+            closers.append((rb, data))
+    if len(closers) != 1:
+        return False
+    cb_, ct_ = closers[0]
+    G = F.body(callee(ct_))
+    obj_o = {(o.kind, o.key, o.bb) for o in fl.origins(ct_['args'][0]) if o.kind != 'comb'}
+    ctor = [o for o in fl.origins(ct_['args'][0]) if o.kind == 'call' and F.body(o.key) is not None]
+    if len(ctor) != 1:
+        return False
+    C = F.body(ctor[0].key)
+    ct_args = b.blocks[ctor[0].bb]['term']['args']
+    # verify field: the constructor stores the argument that is `..verify_checksum`
+    vparam = [i + 1 for i, a in enumerate(ct_args) if any(tuple(o.path)[-1:] == ('verify_checksum',) for o in fl.origins(a))]
+    cfl = flow_of(C)
+    vfield = None
+    hfield = None
+    for blk in C.blocks:
+        for st in blk['stmts']:
+            rv = st['rv']
+            if rv['k'] == 'agg' and rv.get('ak') == 'adt':
+                for fname, op_ in zip(rv.get('fields') or [], rv['ops']):
+                    if vparam and any(o.kind == 'param' and o.key == vparam[0] for o in cfl.origins(op_)):
+                        vfield = fname
+    adt = F.adts.get(strip_refs(G.local_ty(1)).split('<')[0]) if hasattr(F, 'adts') else None
+    for v_ in (adt or {}).get('variants', [{}])[:1]:
+        for f_ in v_.get('fields', []):
+            if 'blake3::Hasher' in f_.get('ty', ''):
+                hfield = f_['name']
+            if vfield is None and f_.get('ty') == 'bool' and vparam:
+                pass
+    if vfield is None or hfield is None:
+        ctx.undecided('C05.R3', '%s delegates the closing checks to %s: its verification flag / hasher field were not identified' % (fn, G.path))
+        return True
+    # ---- R3 in the closing method
+    gfl = flow_of(G)
+    gcfg = gfl.cfg
+    vf = set()
+    for bi in gcfg.reachable():
+        t = G.blocks[bi]['term']
+        if t['k'] == 'switch' and t['on']['k'] != 'const':
+            os_ = [o for o in gfl.origins(t['on']) if o.kind != 'comb']
+            if os_ and all(o.kind == 'param' and o.key == 1 and tuple(o.path)[-1:] == (vfield,) for o in os_):
+                neg = False
+                for st in G.blocks[bi]['stmts']:
+                    if st['dst']['l'] == t['on']['p']['l'] and st['rv']['k'] == 'un' and st['rv']['op'] == 'Not':
+                        neg = True
+                for v_, tgt in t['targets']:
+                    if (v_ == 0) != neg:
+                        vf.add((bi, tgt, v_))
+                if neg:
+                    vf.add((bi, t['otherwise'], 'otherwise'))
+    eq_e = set()
+    for (cb2, ct2) in gfl.calls_to('std::cmp::PartialEq::eq', 'std::cmp::PartialEq::ne'):
+        sides = [gfl.origins(a) for a in ct2['args'][:2]]
+
+        def final_of_field(os_, depth=0):
+            for o in os_:
+                if o.kind == 'call' and o.key != 'blake3::Hasher::finalize' and o.bb is not None and depth < 3 and G.blocks[o.bb]['term']['args']:
+                    # StrongHash::from_bytes(*hasher.finalize().as_bytes())
+                    if final_of_field(call_arg_origins(gfl, o.bb, 0), depth + 1):
+                        return True
+                if o.kind == 'call' and o.key == 'blake3::Hasher::finalize':
+                    fo = [x for x in call_arg_origins(gfl, o.bb, 0) if x.kind not in ('comb', 'agg')]
+                    if fo and all((x.kind == 'param' and x.key == 1 and hfield in tuple(x.path)) or (x.kind == 'call' and (x.key.endswith('Default::default') or x.key == 'blake3::Hasher::new')) for x in fo) \
+                            and any(x.kind == 'param' for x in fo):
+                        return True
+            return False
+        is_sum = lambda os_: any(o.kind == 'param' and o.key == 2 and tuple(o.path)[:1] == ('checksum',) for o in os_)
+        if (final_of_field(sides[0]) and is_sum(sides[1])) or (final_of_field(sides[1]) and is_sum(sides[0])):
+            e_, n_ = eq_edges(gfl, cb2)
+            eq_e |= e_
+    oks = ok_assign_blocks(G, 'Ok')
+    for ob in oks:
+        ok = bool(eq_e) and gcfg.edges_guard(vf | eq_e, ob)
+        ctx.check(ok, 'C05.R3', '%s:Ok-return' % tag, 'every Ok of %s is behind {verification off} or {finalize(hasher) == delta.checksum}' % G.path.split('::')[-1],
+                  'an Ok return of %s (whose result %s returns) is reachable although verification is enabled and the hash of the written bytes was not found equal to '
+                  'delta.checksum (e.g. on the path where no hasher exists yet because nothing was written)' % (G.path, fn), term_loc(G, ob))
+    if not oks:
+        ctx.undecided('C05.R3', '%s: no Ok return found in %s' % (fn, G.path))
+    # ---- R2: every written buffer goes to the object's feeder, and the feeder hashes it
+    for (wb, wt) in writes:
+        ws = frozenset((o.kind, o.key, o.path, o.bb) for o in fl.origins(wt['args'][1]))
+        name = root_name(fl, wt['args'][1])
+        fed = None
+        for fb, ft in fl.calls(lambda c: F.body(c) is not None):
+            if len(ft['args']) < 2 or not ({(o.kind, o.key, o.bb) for o in fl.origins(ft['args'][0]) if o.kind != 'comb'} & obj_o):
+                continue
+            if frozenset((o.kind, o.key, o.path, o.bb) for o in fl.origins(ft['args'][1])) != ws:
+                continue
+            H = F.body(callee(ft))
+            hfl = flow_of(H)
+            feeds = False
+            for ub, ut in hfl.calls(lambda c: c in UPDATE):
+                if any(o.kind == 'param' and o.key == 2 for o in hfl.origins(ut['args'][1])):
+                    # on every path with verification on: from entry, the return is unreachable without the update except through the verify-off edge
+                    hv = set()
+                    for bi in hfl.cfg.reachable():
+                        t = H.blocks[bi]['term']
+                        if t['k'] == 'switch' and t['on']['k'] != 'const' and any(o.kind == 'param' and o.key == 1 and tuple(o.path)[-1:] == (vfield,) for o in hfl.origins(t['on'])):
+                            hv |= {(bi, tgt, v_) for v_, tgt in t['targets'] if v_ == 0}
+                    r = hfl.cfg.reach(0, cut_blocks=[ub], cut_edges=list(hv))
+                    feeds = not (r & set(hfl.cfg.exits()))
+            if feeds and (cfg.dominates(wb, fb) or cfg.dominates(fb, wb)):
+                fed = fb
+        ctx.check(fed is not None, 'C05.R2', '%s:write_all(%s)~update' % (tag, name), 'the written buffer is handed to the object\'s feeder, which hashes it whenever verification is on',
+                  'bytes written by write_all(%s) in %s are not fed to the hasher of the helper object' % (name, fn), term_loc(b, wb))
+    ctx.ok('C05.R2', '%s:one-hasher' % tag, 'one helper object (%s) carries the hasher' % C.path.split('::')[-2], loc(b, b.lo))
+    return True
 
 
 def _bounds_test(F, body, leak_blocks):
